@@ -61,7 +61,7 @@ def main(tier: str) -> int:
     if not cxxlab.tools_available():
         raise common.Inconclusive('g++ / clang++-14 not available')
     run = common.Run(PROP, tier)
-    n = 6 if tier == 'quick' else 40
+    n = 6 if tier == 'quick' else 150
     run.require('constructions', 'constructed', 'refused', 'identity_comparisons', 'origin_create',
                 'origin_import', 'posts_seen')
     scratch = run.scratch()
